@@ -220,16 +220,23 @@ func demonstrateClasses(r *vkit.R, m *material, ab *admissionBed) map[string]boo
 			r.Inconclusive("demonstration of breaking class " + c.name + " could not be carried out: " + how)
 		}
 		entry := map[string]interface{}{"demonstrated": broken, "how": how}
-		if broken {
+		switch {
+		case broken:
 			judged[c.name] = true
 			r.Count("classes_demonstrated", 1)
-		} else {
+		case c.named != "":
+			// not demonstrable at apply time (the damage shows at the TLS handshake, at a reconcile round, or as a silently
+			// unlimited policy), but the statement names the class: "objects that would break them (… <named> …) are rejected"
+			judged[c.name] = true
+			entry["judged_because_the_statement_names_it"] = c.named
+			r.Count("classes_judged_by_the_statement_wording", 1)
+		default:
 			r.Count("classes_not_demonstrated", 1)
 		}
 		if hm != nil {
 			v := ab.admitAndValidate(hm.DeepCopy())
 			entry["handmade_accepted"] = v.Accepted
-			if v.Accepted && broken {
+			if v.Accepted && judged[c.name] {
 				r.Violation("C16/accepted-breaking/"+c.name,
 					fmt.Sprintf("validation accepts an object of breaking class %q; demonstrated on the consumers: %s", c.name, how),
 					caseWitness{Object: m.describe(hm), Generator: genInfo{Kind: "hand-made"}, Note: how})
@@ -532,7 +539,6 @@ func outcomeFeature(x outcome) string {
 	}
 	return normalise(d)
 }
-
 
 // exploreUpdate sends one UPDATE request (old = the stored, accepted, applied object) through the plugin's Admit+Validate
 // with a real old object, and applies every accepted update on top of old: gateway update path and limiter update path.
